@@ -41,6 +41,7 @@ fn main() {
             "C01" => checks::c01::replay(&ctx, body),
             "C11" => checks::c11::replay(&ctx, body),
             "C05" => checks::c05::replay(&ctx, body),
+            "C06" => checks::c06::replay(&ctx, body),
             "C10" => checks::c10::replay(&ctx, body),
             "C09" => checks::c09::replay(&ctx, body),
             "C08" => checks::c08::replay(&ctx, body),
@@ -58,6 +59,7 @@ fn main() {
             "C01" => checks::c01::run(&ctx),
             "C11" => checks::c11::run(&ctx),
             "C05" => checks::c05::run(&ctx),
+            "C06" => checks::c06::run(&ctx),
             "C10" => checks::c10::run(&ctx),
             "C09" => checks::c09::run(&ctx),
             "C08" => checks::c08::run(&ctx),
